@@ -66,12 +66,14 @@ var (
 	sSiteSync  []bool
 	sSyncSteps []uint64 // in count mode: step indices right after a synchronising statement
 	nSyncSites int
+	sSiteHits  []uint8 // per process: yield sites executed at least once
 	sInOp      []int32 // per task: index of op in flight (for overlap stats)
 )
 
 func init() {
 	sSiteHot = make([]bool, len(apd.VerifSites))
 	sSiteSync = make([]bool, len(apd.VerifSites))
+	sSiteHits = make([]uint8, len(apd.VerifSites))
 	for i, s := range apd.VerifSites {
 		sSiteHot[i] = s.Hot
 		sSiteSync[i] = s.Sync
@@ -86,6 +88,7 @@ func InstallHook() { apd.VerifHook = hook }
 
 //go:norace
 func hook(site int32) {
+	sSiteHits[site] = 1
 	switch sMode {
 	case modeOff:
 		return
@@ -251,3 +254,15 @@ func clock() uint64 { return sClock }
 // SitePairBitmap returns the per-process bitmap of distinct (preempted site,
 // resumed site) pairs as hex.
 func SitePairBitmap() []byte { return sPairBits[:] }
+
+// SiteHits returns which yield sites this process executed.
+func SiteHits() []uint8 { return sSiteHits }
+
+// SiteNames returns "file:line func" for every site.
+func SiteNames() []string {
+	out := make([]string, len(apd.VerifSites))
+	for i, s := range apd.VerifSites {
+		out[i] = s.Func
+	}
+	return out
+}
